@@ -527,7 +527,7 @@ func (rp *replayer) compareBranch(p *pair, h lakeh.History, upto, hidx int, st *
 			return ok, err
 		}
 	}
-	if last && bi == 0 && (!rp.lean || hidx%3 == 0) {
+	if last && bi == 0 && (rp.full || (rp.lean && hidx%3 == 0) || (!rp.lean && hidx%2 == 0)) {
 		if ok, err := rp.extraQueries(p, h, upto, hidx, b); err != nil || !ok {
 			return ok, err
 		}
